@@ -182,6 +182,8 @@ func (a *pwaligner) fillMatrix_SW() (err error) {
 
 	// We initialize first row and first column of the matrix
 	var match, fnew float64
+	// Best score of a gap ending in the current cell of the first row / first column
+	var rowgap, colgap float64
 
 	// First row
 	for j := 0; j < l2; j++ {
@@ -190,12 +192,14 @@ func (a *pwaligner) fillMatrix_SW() (err error) {
 		match = a.matchScore(c1, c2, indexseq1[0], indexseq2[j])
 		fnew = 0.0
 		if j > 0 {
-			fnew = a.matrix[0][j-1]
-			if a.trace[0][j-1] == ALIGN_LEFT {
-				fnew += a.gapextend
-			} else {
-				fnew += a.gapopen
+			// Best gap ending here: extension of the best gap ending in the previous
+			// cell (even if that cell itself has a better score without gap),
+			// or gap opening from the previous cell
+			rowgap += a.gapextend
+			if j == 1 || a.matrix[0][j-1]+a.gapopen > rowgap {
+				rowgap = a.matrix[0][j-1] + a.gapopen
 			}
+			fnew = rowgap
 		}
 		if match > fnew && match > .0 {
 			a.matrix[0][j] = match
@@ -228,12 +232,12 @@ func (a *pwaligner) fillMatrix_SW() (err error) {
 
 		fnew = 0.0
 		if i > 0 {
-			fnew = a.matrix[i-1][0]
-			if a.trace[i-1][0] == ALIGN_UP {
-				fnew += a.gapextend
-			} else {
-				fnew += a.gapopen
+			// Same as for the first row
+			colgap += a.gapextend
+			if i == 1 || a.matrix[i-1][0]+a.gapopen > colgap {
+				colgap = a.matrix[i-1][0] + a.gapopen
 			}
+			fnew = colgap
 		}
 		if match > fnew && match > .0 {
 			a.matrix[i][0] = match
